@@ -409,6 +409,13 @@ func c03Run(r *core.Run) {
 	judge := func(name string, ep *world.Endpoint, expect world.Expectation, why string) {
 		// every fault is judged with collateral checking alone and with revocation checking on top: some
 		// forgeries are stopped only by a later check of the other setting, which must not be relied upon
+		// genuine first, then the fault: the verifier has just seen the honest response of this endpoint
+		// (whatever it remembers of it must not vouch for the faulty one that follows)
+		if !strings.HasPrefix(name, "flip-") {
+			if ctl := verifyRaw(raw, worldOpts(w, O2)); d.down == ctl.Accepted() {
+				r.Count("control_unexpected", 1)
+			}
+		}
 		for _, level := range []int{O1, O2} {
 			c03SetEndpoint(w, d, ep)
 			o := verifyRaw(raw, worldOpts(w, level))
